@@ -4,10 +4,12 @@ import (
 	"testing"
 
 	"seehuhn.de/go/sfnt/glyph"
+	"seehuhn.de/go/sfnt/opentype/anchor"
 	"seehuhn.de/go/sfnt/opentype/classdef"
 	"seehuhn.de/go/sfnt/opentype/coverage"
 	"seehuhn.de/go/sfnt/opentype/gdef"
 	"seehuhn.de/go/sfnt/opentype/gtab"
+	"seehuhn.de/go/sfnt/opentype/markarray"
 	"verif/harness/gen/lookups"
 	"verif/harness/stats"
 )
@@ -132,4 +134,25 @@ func TestC08RegressClassDefFullRange(t *testing.T) {
 	// 65536 ranges: neither format can hold the table
 	labels, f = checkClassDef(altClasses(0x10000, 0, 1))
 	regressTable(t, "classdef-full-range-unrepresentable", labels, f)
+}
+
+// A mark-to-ligature subtable without any ligature component whose mark has
+// class 0xFFFF (gtab.Read accepts such a table): the class count of the
+// header is a 16-bit field, the encoder derived 65536 and refused.
+func TestC08RegressGpos5MarkClassFFFF(t *testing.T) {
+	for _, v := range []struct {
+		name string
+		st   *gtab.Gpos5_1
+	}{
+		{"no-ligatures", &gtab.Gpos5_1{MarkCov: coverage.Table{3: 0}, MarkArray: []markarray.Record{{Class: 0xFFFF}}, LigCov: coverage.Table{}}},
+		{"ligatures-without-components", &gtab.Gpos5_1{MarkCov: coverage.Table{3: 0}, MarkArray: []markarray.Record{{Class: 0xFFFF}},
+			LigCov: coverage.Table{7: 0, 9: 1}, LigArray: [][][]anchor.Table{{}, {}}}},
+	} {
+		regressInfo(t, "gpos5-mark-class-ffff/"+v.name, &infoCase{
+			kind: gtab.TypeGpos,
+			info: &gtab.Info{ScriptList: dfltScripts(), FeatureList: oneFeature(), LookupList: gtab.LookupList{{
+				Meta: &gtab.LookupMetaInfo{LookupType: 5}, Subtables: []gtab.Subtable{v.st}}}},
+			desc: []string{v.name},
+		})
+	}
 }
